@@ -44,7 +44,7 @@ package core
 //@   ensures counted: !err ==> len(os.offsets) == os.n
 //@   ensures frame: os.first == old(os.first) && os.n == old(os.n) && sameseq(os.decoded, old(os.decoded))
 //@   loop 0:
-//@     invariant 0 <= i && i <= os.n && len(os.offsets) == i
+//@     invariant 0 <= i && i <= os.n && len(os.offsets) == i && cpinv(parser)
 //@     invariant os.first == old(os.first) && os.n == old(os.n) && sameseq(os.decoded, old(os.decoded))
 //@     decreases os.n - i
 
@@ -185,3 +185,12 @@ package core
 //@   loop 0:
 //@     invariant cpinv(p) && pM(p) < old(pM(p))
 //@     decreases pM(p)
+
+//@ func NewLexer results (l)
+//@   property C02
+//@   flags trusted
+//@   ensures !isnil(l) && lexRem(l) >= 0
+
+//@ func NewParser results (np)
+//@   property C02
+//@   ensures cpinv(np)
